@@ -3,6 +3,10 @@ from sa.sym import Engine, show, show_cond, subterms, C, is_const, PathLimit
 from sa import rx
 from .common import *
 from .tables import is_true, is_false
+import functools as _ft
+_Engine = Engine
+# these rules look at the closures handed to find / any / for_each / filter themselves (closure and loop form are both handled here)
+Engine = _ft.partial(_Engine, iter_adapters=False)
 
 EXPLANATION = (
     "Static clauses: (R1) every path of the two input entry points that rejects (Err(InvalidMove)) has called no "
